@@ -49,7 +49,8 @@ def main(args):
     if not serializers and not opts.void_out:
         emit.error("missing output directives")
 
-    patcher = get_patcher(opts.patch)
+    with error_on_exception(emit):
+        patcher = get_patcher(opts.patch)
     supplementary_nodes = create_supplements(emit, opts.isar_includes, opts.include_dirs, patcher)
 
     model_nodes = dict(flatten_included_defs(supplementary_nodes))
@@ -160,3 +161,5 @@ def error_on_exception(emit):
         yield
     except model.ParseError as e:
         emit.error('\n'.join(('%s: error: %s' % err for err in e.errors)))
+    except UnicodeDecodeError as e:
+        emit.error('input is not valid utf-8 text: %s' % e)
